@@ -141,6 +141,33 @@ pub fn check(ctx: &mut Ctx, case: &Case) -> Option<Run> {
         ctx.violation("empty-labels-nonempty-wave", detail(J::obj().set("len", run.wave.len())));
     }
 
+    // --- with alignment on, the frame counts follow the label times (exact-integer law on the
+    // raw annotation of the lines that were handed over)
+    if let (true, Some(lines)) = (case.cond.alignment, &case.lines) {
+        let ann: Vec<crate::alignlaw::Ann> = lines
+            .iter()
+            .map(|l| {
+                let mut it = l.splitn(3, ' ');
+                match (it.next().and_then(|a| a.parse::<u64>().ok()), it.next().and_then(|a| a.parse::<u64>().ok())) {
+                    (Some(s), Some(e)) => crate::alignlaw::Ann { start: Some(s), end: Some(e) },
+                    _ => crate::alignlaw::Ann { start: None, end: None },
+                }
+            })
+            .collect();
+        let rate = engine.condition.get_sampling_frequency();
+        if run.durations.len() == nlab * nstate && ann.iter().any(|a| a.end.is_some()) {
+            ctx.count("aligned_utterances_checked_against_the_label_times", 1.0);
+            if let crate::alignlaw::Verdict::Bad(what, d) =
+                crate::alignlaw::check_law(&run.durations, &ann, nstate, rate, fperiod, None)
+            {
+                ctx.violation(
+                    "frames-do-not-follow-the-label-times",
+                    detail(J::obj().set("what", what).set("detail", d).set("rate", rate).set("fperiod", fperiod)),
+                );
+            }
+        }
+    }
+
     // --- independent length law (single voice, alignment off)
     if let (Some(rv), false, true) = (case.refv, case.cond.alignment, case.wellformed) {
         let mut f1 = 0usize;
